@@ -141,7 +141,7 @@ theorem invLogJ_step (cfg : Cfg) (s : State) (e : Event) (s' : State) (hA : InvA
     repeat' split at hs
     all_goals (first | (cases hs; done) | skip)
     rename_i _ P hP hg
-    have hnone : s.batches b = none := by simpa using hg.2.2.2
+    have hnone : s.batches b = none := by simpa using hg.2.2.2.1
     cases hs
     refine hI.of_frame rfl rfl ?_
     intro x X hx
